@@ -236,6 +236,15 @@ class Rewrites(Suite):
                         rewr=dict(classes=oc, files=dict(side, **{'wrapped/base.json': inner}), context=None,
                                   base={'name': 'wrapper', 'data': {'uses': 'wrapped/base.json as mnt'}}),
                         moves=['mount:mnt'], prefix='mnt::'))
+        # two used config files of one base name in different directories; renaming one of them moves nothing
+        pc = [dict(K(0, 'PartEu', params=[P('sel')]), name='part_eu'), dict(K(1, 'PartUs', params=[P('sel')]), name='part_us'),
+              dict(K(2, 'Collect', meta_inputs=[{'name': '~part_.*'}]), name='collect'),
+              dict(K(3, 'Top', meta_inputs=[{'cls': 2}]), name='top')]
+        def two_files(us):
+            return dict(classes=pc, files={'eu/part.json': {'tasks': ['@M.PartEu'], 'sel': 1}, us: {'tasks': ['@M.PartUs'], 'sel': 2}},
+                        context=None, base={'name': 'm', 'data': {'tasks': ['@M.Collect', '@M.Top'], 'uses': ['eu/part.json', us]}})
+        out.append(dict(orig=two_files('us/part_us.json'), rewr=two_files('us/part.json'), moves=['rename-files'], prefix=''))
+        out.append(dict(orig=two_files('us/part.yaml'), rewr=two_files('us/other.json'), moves=['rename-files'], prefix=''))
         # inputs collected by a pattern: the order in which the tasks are declared must not matter
         parts = [dict(K(i, f'Part{i}', params=[P('sel')]), name=f'part_{n}') for i, n in enumerate(['b', 'a', 'c'])]
         coll = dict(K(3, 'Collect', meta_inputs=[{'name': '~part_.*'}]), name='collect')
